@@ -212,7 +212,7 @@ func isErrorCtor(f *ssa.Function) bool {
 	ok := true
 	core.Instrs(f, func(i ssa.Instruction) {
 		if r, isR := i.(*ssa.Return); isR {
-			for _, res := range r.Results {
+			for _, res := range res(r) {
 				for _, s := range core.Sources(res) {
 					call, isC := s.(*ssa.Call)
 					if !isC || !(core.IsCall(call, "fmt.Errorf") || core.IsCall(call, "errors.New")) {
@@ -271,15 +271,15 @@ func c03r1(c *core.Ctx) {
 			ok := core.EnumPaths(h, 2, 50000, func(pa core.Path) {
 				total++
 				ret := pa.Returns()
-				if ret == nil || len(ret.Results) != 2 {
+				if ret == nil || len(res(ret)) != 2 {
 					return // panics do not return a response
 				}
-				if core.IsNilConst(ret.Results[0]) || provablyNonNil(pa, ret.Results[1]) {
+				if core.IsNilConst(res(ret)[0]) || provablyNonNil(pa, res(ret)[1]) {
 					return
 				}
 				facts := containerFactsOnPath(pa, tVerifyCtrl)
 				f := map[int64]tagVal{}
-				for _, s := range core.Sources(ret.Results[0]) {
+				for _, s := range core.Sources(res(ret)[0]) {
 					for t, v := range facts[s] {
 						if _, dup := f[t]; !dup {
 							f[t] = v
